@@ -8,7 +8,7 @@ PROP = ['C08_ContractionObs', 'C08_FaultIsNoOpObs']
 
 
 def check(run):
-    c = vlib.cfg(constants=dict(BUGS, Depth=str(run.pick(6, 8))), invariants=['C08_Hull', 'C08_NeverPoisoned'],
+    c = vlib.cfg(constants=dict(BUGS, Depth='6', Wide=run.pick('FALSE', 'TRUE')), invariants=['C08_Hull', 'C08_NeverPoisoned'],
                  properties=['C08_Contraction', 'C08_FaultIsNoOp'])
     run.model_check('MC_Smoothing', c, 'mc_smoothing', timeout=run.pick(600, 3600))
     run.build()
@@ -38,7 +38,7 @@ def check(run):
                       'sensors polled through the real monitor poll (internal.updateSensor) with real faults (missing / empty / non-numeric '
                       'file, directory instead of file, non-zero exit, garbage, nan, inf, -inf, empty output, command sleeping past its '
                       'deadline), windows 1..50; TLC validates every poll against the exact smoothing step and the C08 formulas; '
-                      'non-trivial = polls with a fault' % run.pick(6, 8),
+                      'non-trivial = polls with a fault' % 6,
                       dict(evaluations=polls, distinct_nontrivial=sum(faults.values()), polls=polls, faults_by_kind=faults),
                       ['observation: floor(avg*1000) and floor/ceil of the reading*1000; formulas carry +-2..3 units of slack for this projection',
                        'readings are finite and below 2*10^6 in magnitude (32-bit TLC integers)'])
